@@ -319,6 +319,100 @@ func implAlloc(tmp string, f []string) (res string) {
 	return fmt.Sprintf("ok fl=%s tbl=%s", fmtSec(fl), fmtSec(out))
 }
 
+// atab <ss> <msat> <msatList> <sat>: allocSectorTables on synthetic tables
+func implAtab(f []string) (res string) {
+	defer func() {
+		if r := recover(); r != nil {
+			res = panicClass(r)
+		}
+	}()
+	ss := int(hx.Atoi(f[1]))
+	cdf := comdoc.VerifSynthetic(nil, ss, 16, parseSec(f[4]), nil, comdoc.SecIDEndOfChain, 0)
+	sat, msat, ml := cdf.VerifAllocSectorTables(parseSec(f[2]), parseSec(f[3]))
+	return fmt.Sprintf("ok sat=%s msat=%s ml=%s", fmtSec(sat), fmtSec(msat), fmtSec(ml))
+}
+
+// fullTable: n entries, every one in use: the first nFat..., then one long chain through the rest
+func fullTable(spb, nFat, nDif, free int) (sat, msat, ml []comdoc.SecID) {
+	n := nFat * spb
+	sat = make([]comdoc.SecID, n)
+	pos := 0
+	for i := 0; i < nFat; i++ {
+		sat[pos] = comdoc.SecIDSAT
+		msat = append(msat, comdoc.SecID(pos))
+		pos++
+	}
+	for i := 0; i < nDif; i++ {
+		sat[pos] = comdoc.SecIDMSAT
+		ml = append(ml, comdoc.SecID(pos))
+		pos++
+	}
+	for ; pos < n-free; pos++ {
+		if pos+1 < n-free {
+			sat[pos] = comdoc.SecID(pos + 1)
+		} else {
+			sat[pos] = comdoc.SecIDEndOfChain
+		}
+	}
+	for ; pos < n; pos++ {
+		sat[pos] = comdoc.SecIDFree
+	}
+	return
+}
+
+func genAtab(w *bufio.Writer, r *hx.Rng, tier string) {
+	emit := func(ss int, sat, msat, ml []comdoc.SecID) {
+		fmt.Fprintf(w, "C18 atab %d %s %s %s\n", ss, fmtSec(msat), fmtSec(ml), fmtSec(sat))
+	}
+	spbs := []int{4, 8, 16}
+	if tier == "thorough" {
+		spbs = append(spbs, 128, 1024)
+	}
+	for _, spb := range spbs {
+		per := spb - 1
+		// FAT sector counts around the 109 header slots and around each further DIFAT sector
+		for _, nFat := range []int{1, 2, 108, 109, 110, 109 + per - 1, 109 + per, 109 + per + 1, 109 + 2*per, 109 + 2*per + 1} {
+			need := 0
+			if nFat > 109 {
+				need = (nFat - 109 + per - 1) / per
+			}
+			for _, free := range []int{0, 1, 2, spb} {
+				if free >= nFat*spb-nFat-need {
+					continue
+				}
+				sat, msat, ml := fullTable(spb, nFat, need, free)
+				emit(spb*4, sat, msat, ml) // consistent: nothing to do
+				if nFat > 1 {
+					// the table grew by one block since the FAT was last written: one FAT sector is not yet recorded
+					sat2 := append([]comdoc.SecID{}, sat...)
+					last := msat[len(msat)-1]
+					sat2[last] = comdoc.SecIDEndOfChain
+					emit(spb*4, sat2, msat[:len(msat)-1], ml)
+					if need > 0 {
+						need1 := 0
+						if nFat-1 > 109 {
+							need1 = (nFat - 1 - 109 + per - 1) / per
+						}
+						if need1 < need {
+							// ... and that FAT sector is the one that needs a new DIFAT sector
+							sat3 := append([]comdoc.SecID{}, sat2...)
+							sat3[ml[len(ml)-1]] = comdoc.SecIDEndOfChain
+							emit(spb*4, sat3, msat[:len(msat)-1], ml[:len(ml)-1])
+						}
+					}
+				}
+			}
+		}
+		for i := 0; i < 12; i++ {
+			n := spb * (1 + r.Intn(6))
+			tbl, _, _ := synthTable(r, n, r.Intn(3), false)
+			emit(spb*4, tbl, nil, nil)
+		}
+	}
+	// irregular table length: panics
+	emit(64, make([]comdoc.SecID, 17), nil, nil)
+}
+
 func implFree(f []string) (res string) {
 	defer func() {
 		if r := recover(); r != nil {
